@@ -168,7 +168,7 @@ def build(ctx, cnfgen, quick):
                 F.add_clause([1 + i % 5, -(1 + (i * 7) % 6)] if i % 9 else [])
             return F
         add('cnf %d rows' % rows, 'cnf-rows', False, manyc)
-    for i in range(15 if quick else 150):
+    for i in range(15 if quick else 500):
         def rnd(seed=rng.randrange(1 << 30)):
             import random
             r = random.Random(seed)
@@ -182,6 +182,26 @@ def build(ctx, cnfgen, quick):
                 F.update_variable_number(n + 3)
             return F
         add('random opb %d' % i, 'opb-random', True, rnd)
+    # random variable names (the \\overline placement looks for the first '_' or '^' not at position 0)
+    for i in range(12 if quick else 300):
+        def rn(seed=rng.randrange(1 << 30), as_opb=(i % 2 == 1)):
+            import random
+            r = random.Random(seed)
+            F = OPB() if as_opb else CNF()
+            k = r.randint(1, 5)
+            for _ in range(k):
+                m = r.choice([1, 1, 2, 3, 6])
+                nm = ''.join(r.choice('xyzXp_^_^{}\\01,()&+|' + (' ' if r.random() < 0.1 else 'q')) for _ in range(m))
+                F.new_variable(nm)
+            for _ in range(r.randint(0, 6)):
+                w = r.choice([0, 1, 2, 3])
+                lits = [r.choice([1, -1]) * r.randint(1, k) for _ in range(w)]
+                if as_opb:
+                    F.add_constraint([(r.randint(0, 4), l) for l in lits] + [r.choice(['>=', '==']), r.randint(0, 4)])
+                else:
+                    F.add_clause(lits)
+            return F
+        add('random names %d' % i, 'opb-random-names' if i % 2 == 1 else 'cnf-random-names', i % 2 == 1, rn)
     # families built as OPB objects
     add('php 4 3 as OPB', 'opb-family', True, lambda: C.PigeonholePrinciple(4, 3, formula_class=OPB))
     add('count 5 2 as OPB', 'opb-family', True, lambda: C.CountingPrinciple(5, 2, formula_class=OPB))
